@@ -1,4 +1,4 @@
-HOOK_COMMITS = []
+HOOK_COMMITS = ["606ee9b verif hooks: des-cqueue allocator observer, page-size constructor, snapshots (cfg petrichorit_des_verif)"]
 NOT_APPLICABLE = {}
 _T = "machine-checked proof (Lean 4) of an executable model + differential correspondence check against the Rust implementation"
 META = {
@@ -150,5 +150,21 @@ META = {
               "timestamps (nothing_lost); the end time is the last dispatched timestamp; Builder::max_itr/max_time/limit compose with Or."),
         design_ref="DESIGN.md §5 C11",
         note="Trusted: as C02. RuntimeLimit::applies is a 5-arm transcription validated by the tie on nested And/Or trees.",
+        technique=_T),
+    "C15": dict(
+        text=("Lean 4 theorems about an executable model of the calendar queue's page allocator (free list in list order, size/align normalisation, "
+              "align-up, fit test, tail rule, first-fit scan with a page oracle, split rule, deallocate): for every alloc/free script, every page size 2^p>=16 "
+              "and every oracle of page-aligned pairwise-disjoint pages a returned block is disjoint from all live blocks, aligned, inside an owned page; free "
+              "regions are pairwise disjoint, disjoint from live blocks and can hold their ListNode header; memory is reused only after free; allocated_mem = "
+              "sum of live sizes; no assertion fails; find_region terminates iff the normalised size is a page or <= page-16 (C15.alloc_terminates / "
+              "alloc_diverges). Payload conservation (added = fetched + cancelled + stored-at-drop, each once, unchanged) is proved on the C01 calendar-queue "
+              "model and transported to the queue-with-memory model CQMem. Tied to the code on every run: the allocator event stream of the real allocator and "
+              "of CQueue<T> (6 payload types, with/without destructors, page sizes 64..65536) must be predicted address-exactly by the model and accepted by an "
+              "independent shadow-map checker; destructor logs and payload bytes are checked against the abstract event set."),
+        design_ref="DESIGN.md §5 C15",
+        note=("Partial: aliasing/provenance/UB of the raw-pointer code is outside any Lean model (Miri flags Stacked/Tree-Borrows violations; see DESIGN.md). Trusted: "
+              "Lean kernel; propext/Classical.choice/Quot.sound; hand transcription Rust->Lean (validated by address-exact replay); page oracle assumption; "
+              "harness, hook observer, driver parser, orchestrator. Out of scope: usize overflow; sizes in (page-16, page) (find_region does not terminate, "
+              "observed under the hook's page limit); the CQMem node<->event invariant is checked on runs (every node released at drop), not proved."),
         technique=_T),
 }
